@@ -30,7 +30,7 @@ char *arena_base() {
 	}();
 	return a;
 }
-struct Region { uintptr_t base; size_t len; bool mapped; bool slab; int klass; };
+struct Region { uintptr_t base; size_t len; bool mapped; bool slab; int klass; bool held_large = false; };
 struct World {
 	size_t bump = 0;
 	std::vector<Region> regions;
@@ -161,7 +161,7 @@ void run(Ctx &c, int nb) {
 				dsched::Ignore ig;
 				uintptr_t a = (uintptr_t)p;
 				if(!p) { w.err("%s returned null", what); return; }
-				bool inside = false; for(auto &r : w.regions) if(r.mapped && a >= r.base && a + std::max<size_t>(req, 1) <= r.base + r.len && a + rep <= r.base + r.len) inside = true;
+				bool inside = false; for(auto &r : w.regions) if(r.mapped && a >= r.base && a + std::max<size_t>(req, 1) <= r.base + r.len && a + rep <= r.base + r.len) { inside = true; if(class_of(req, nb) < 0) r.held_large = true; }
 				if(!inside) w.err("%s: block %#lx (+%zu) lies in no mapped region", what, (unsigned long)a, rep);
 				if(rep < req) w.err("%s: reported size %zu < requested %zu", what, rep, req);
 				size_t al = std::min(w.page, std::max<size_t>(8, req <= 1 ? 1 : (size_t(1) << (64 - __builtin_clzl(req - 1)))));
@@ -212,7 +212,7 @@ void run(Ctx &c, int nb) {
 	};
 	std::vector<std::function<void()>> bodies;
 	for(unsigned k = 0; k < nthreads; k++) bodies.push_back([&, k] { try { body(k); } catch(Panic &p) { dsched::Ignore ig; w.err("frg_panic on a valid history: %s", p.msg.c_str()); } });
-	unsigned smode = t.pick(5); c.tagf("sched-mode-%u", smode);
+	unsigned smode = dsched::pick_mode(t); c.tagf("sched-mode-%u", smode & 0xff); if(smode & 0x100) c.tag("sched-mode-window-hunting");
 	auto choose = dsched::make_chooser(t, smode);
 	auto r = dsched::run(bodies, choose, 150000);
 	VCHECK(c, "C05", r.verdict != "deadlock", "deadlock: no thread can make a step after %llu schedule points (a pool call blocks forever)", (unsigned long long)r.steps);
@@ -228,19 +228,34 @@ void run(Ctx &c, int nb) {
 	VCHECK(c, "C05", w.live.empty(), "harness: %zu blocks still live", w.live.size());
 	long expect = 0;
 	for(auto &rg : w.regions) if(rg.mapped) {
-		VCHECK(c, "C05", rg.slab, "after every block was freed a non-slab region of %zu bytes is still mapped", rg.len);
+		VCHECK(c, "C05", !rg.held_large, "after every block was freed the %zu-byte reservation of a large block is still mapped", rg.len);
 		size_t item = class_size(rg.klass), overhead = 0; while(overhead < 64) overhead += item;     // lower bound of the header; the page count is insensitive to it except for classes >= a page
 		(void)overhead;
 	}
-	// page accounting: the counter must equal what a sequential pool reports for the same multiset of slabs
+	// page accounting at quiescence. What a region is charged with is the pool's business (C03 only says that the same amount comes off
+	// again); a sequential scratch pool is asked what it charges for the first and for the second slab of each class that is still
+	// mapped. If the charge is the same for both, the counter must equal the sum over the mapped slabs exactly; if it varies from slab
+	// to slab (slab colouring), or memory that is no slab of a class stays mapped, only the bounds 1 page <= charge <= len/page + 1 hold.
 	{
-		std::map<int, unsigned> slabs; for(auto &rg : w.regions) if(rg.mapped && rg.slab) slabs[rg.klass]++;
+		std::map<int, unsigned> slabs; bool exact = true; long lo = 0, hi = 0;
+		for(auto &rg : w.regions) if(rg.mapped) { lo += 1; hi += (long)(rg.len / w.page) + 1; if(rg.slab && rg.klass >= 0) slabs[rg.klass]++; else exact = false; }
 		World scratch; scratch.page = w.page; scratch.sb = w.sb; scratch.slabsize = w.slabsize; scratch.constructing.assign(nb, 0); scratch.bump = w.bump + (8u << 20);
 		World *saved = W; W = &scratch;
-		for(auto &kv : slabs) { Pol p2; Pool *pl = new Pool(p2); inflight_small = true; inflight_class = kv.first; pl->allocate(class_size(kv.first)); inflight_small = false; inflight_class = -1; expect += (long)pl->numUsedPages() * kv.second; ::operator delete(pl); }
+		for(auto &kv : slabs) {
+			Pol p2; Pool *pl = new Pool(p2); inflight_small = true; inflight_class = kv.first;
+			pl->allocate(class_size(kv.first)); long first = (long)pl->numUsedPages();
+			unsigned n = 0; while(scratch.map_calls < 2 && n++ < 70000) pl->allocate(class_size(kv.first));
+			long second = (long)pl->numUsedPages() - first;
+			inflight_small = false; inflight_class = -1;
+			if(scratch.map_calls >= 2 && second != first) exact = false;
+			expect += first * kv.second; ::operator delete(pl);
+			scratch.map_calls = 0;
+		}
 		W = saved;
+		long now = (long)pool->numUsedPages();
+		if(exact) VCHECK(c, "C05", now == expect, "after all threads finished and every block was freed numUsedPages() is %ld, the mapped slabs account for %ld", now, expect);
+		else { c.tag("page-charge-varies"); VCHECK(c, "C05", now >= lo && now <= hi, "after all threads finished and every block was freed numUsedPages() is %ld, outside the bounds %ld..%ld that the mapped regions allow", now, lo, hi); }
 	}
-	VCHECK(c, "C05", (long)pool->numUsedPages() == expect, "after all threads finished and every block was freed numUsedPages() is %zu, the mapped slabs account for %ld", pool->numUsedPages(), expect);
 	if(w.concurrent_slab_construction) c.tag("two-threads-constructing-a-slab-of-one-class");
 	if(w.cross_thread_frees) c.tag("cross-thread-free");
 	if(w.reentrant && w.unmap_calls) c.tag("re-entrant-unmap");
